@@ -83,7 +83,7 @@ func sqlC11(args []string) error {
 	nscen, _ := strconv.Atoi(args[1])
 	rng := rand.New(rand.NewSource(envSeed()))
 	for sc := 0; sc < nscen; sc++ {
-		s, err := newRun(tw, "C11", 1600)
+		s, err := newRun(tw, ctxName("C11"), 1600)
 		if err != nil {
 			return err
 		}
